@@ -196,6 +196,9 @@ def main(tier, write_baseline=False):
                               (("_a", "b"), ("", "the b")), (("alpha", "extra_kwargs_like", "b_id"), ("the alpha", "the extra", "the b_id"))):
             irs_.append({"name": "Conf", "doc": "Summary of it.", "returns": None,
                          "params": OrderedDict((n_, dict({"typ": "int", "default": i_ + 1}, **({"doc": d_} if d_ else {}))) for i_, (n_, d_) in enumerate(zip(names_, docs_)))})
+        # legal identifiers with letters outside ASCII
+        irs_.append({"name": "Conf", "doc": "Summary of it.", "returns": None,
+                     "params": OrderedDict((n_, {"typ": "int", "default": i_ + 1, "doc": "the value"}) for i_, n_ in enumerate(("gr\u00f6\u00dfe", "\u03bb_rate", "plain")))})
         cells_ = [(f, s_) for f in ("class", "function", "argparse") for s_ in ("rest",)]
         _n, _r, fl = M.run(cells_, irs_, exposes)
         for key, (cell, ir, what) in fl.items():
